@@ -171,3 +171,70 @@ M("c05-summary-instate-skipped", "C05", ["R05.2", "R05.3", "R05.4"], CONS, "    
 M("c05-scrypt-salt", "C05", "R05.7", CONS, "    return scrypt(summary.serialize(), current_height.to_bytes(8, byteorder='big'))", "    return scrypt(summary.serialize(), b'')")
 M("c05-miner-height", "C05", "R05.8", CONS, "    previous_block = coinstate.head()\n    height = previous_block.height + 1\n    return BlockSummary(",
   "    previous_block = coinstate.head()\n    height = previous_block.height\n    return BlockSummary(")
+
+# ----------------------------------------------------------------------------------------------- C07
+M("c07-swap-reader-lines", "C07", "R07.1", DT,
+  "        previous_block_hash = safe_read(f, 32)\n        merkle_root_hash = safe_read(f, 32)\n",
+  "        merkle_root_hash = safe_read(f, 32)\n        previous_block_hash = safe_read(f, 32)\n")
+M("c07-reader-little-endian", "C07", "R07.1", DT, "        (index,) = struct.unpack(b\">I\", safe_read(f, 4))\n        return cls(hash, index)",
+  "        (index,) = struct.unpack(b\"<I\", safe_read(f, 4))\n        return cls(hash, index)")
+M("c07-ctor-args-swapped", "C07", "R07.1", DT, "        return cls(summary_hash, chain_sample, block_hash)", "        return cls(summary_hash, block_hash, chain_sample)")
+M("c07-extra-tag", "C07", "R07.4", SIG,
+  "        if type_indicator == TYPE_SECP256k1:\n            return SECP256k1Signature.stream_deserialize(f)\n",
+  "        if type_indicator == TYPE_SECP256k1:\n            return SECP256k1Signature.stream_deserialize(f)\n\n        if type_indicator == b'\\x03':\n            return SECP256k1Signature.stream_deserialize(f)\n")
+M("c07-span-short", "C07", "R07.5", DT, "        cached_hash = sha256d(f.read(end_position - start_position))\n\n        return cls(inputs, outputs, cached_hash)",
+  "        cached_hash = sha256d(f.read(end_position - start_position - 1))\n\n        return cls(inputs, outputs, cached_hash)")
+M("c07-reintroduce-d1", "C07", "R07.6", SER,
+  "    if canonical.getvalue() != b\"\".join(consumed):\n        raise DeserializationError(\"Non-canonical VLQ encoding\")\n", "")
+M("c07-writer-drops-nonce", "C07", "R07.1", DT, "        f.write(self.target)\n        f.write(struct.pack(b\">I\", self.nonce))\n", "        f.write(self.target)\n")
+M("c07-lenient-tx-version", "C07", "R07.1", DT,
+  "        if safe_read(f, 1) != b'\\x00':\n            raise ValueError(\"Current version supports only version 0 transactions\")\n",
+  "        safe_read(f, 1)\n")
+M("c07-block-span-includes-txs", "C07", "R07.5", DT,
+  "        header = BlockHeader.stream_deserialize(f)\n        end_position = f.tell()\n        f.seek(start_position)\n        hash = sha256d(f.read(end_position - start_position))\n        transactions = stream_deserialize_list(f, Transaction)\n",
+  "        header = BlockHeader.stream_deserialize(f)\n        transactions = stream_deserialize_list(f, Transaction)\n        end_position = f.tell()\n        f.seek(start_position)\n        hash = sha256d(f.read(end_position - start_position))\n")
+M("c07-tx-hash-single", "C07", "R07.5", DT, "        return self.cached_hash or sha256d(self.serialize())\n\n    def __hash__", "        return self.cached_hash or sha256d(self.serialize()[1:])\n\n    def __hash__")
+M("c07-new-supplier", "C07", "R07.5", DT, "        return Transaction(\n            inputs=[input.signable_equivalent() for input in self.inputs],\n            outputs=self.outputs,\n        )",
+  "        return Transaction(\n            inputs=[input.signable_equivalent() for input in self.inputs],\n            outputs=self.outputs,\n            cached_hash=self.cached_hash,\n        )")
+M("c07-datamessage-wrong-tag", "C07", "R07.4", MGR, "        self.broadcast_message(DataMessage(DATA_TRANSACTION, transaction))", "        self.broadcast_message(DataMessage(DATA_BLOCK, transaction))")
+M("c07-coinbase-len-u16-writer", "C07", "R07.1", SIG, "        f.write(struct.pack(b\"B\", len(self.signature)))\n        f.write(self.signature)",
+  "        f.write(struct.pack(b\">H\", len(self.signature)))\n        f.write(self.signature)")
+M("c07-list-skips-last", "C07", "R07.2", SER, "    for _ in range(length):\n        result.append(clz.stream_deserialize(f))", "    for _ in range(length - 1):\n        result.append(clz.stream_deserialize(f))")
+M("c07-vlq-partial-record", "C07", "R07.6", SER, "        raw = safe_read(f, 1)\n        consumed.append(raw)\n", "        raw = safe_read(f, 1)\n        if not consumed:\n            consumed.append(raw)\n")
+M("c07-pubkey-63", "C07", "R07.3", SIG, "        public_key: bytes = safe_read(f, 64)", "        public_key: bytes = safe_read(f, 63)")
+M("c07-msg-tag-collision", "C07", "R07.4", MSG, "MSG_PEERS = b'\\x00\\x06'", "MSG_PEERS = b'\\x00\\x05'")
+
+# ----------------------------------------------------------------------------------------------- C06
+M("c06-eq-drop-chain-sample", "C06", "R06.2", DT, "            self.chain_sample == other.chain_sample and\n", "")
+M("c06-evidence-tx-slice", "C06", ["R06.3", "R05.7"], CONS, "    serialized_transactions = serialize_list(transactions)", "    serialized_transactions = serialize_list(transactions[1:])")
+M("c06-lenient-tx-version", "C06", ["R06.4", "R06.6"], DT,
+  "        if safe_read(f, 1) != b'\\x00':\n            raise ValueError(\"Current version supports only version 0 transactions\")\n",
+  "        safe_read(f, 1)\n")
+M("c06-raw-read", "C06", "R06.5", DT, "        summary_hash = safe_read(f, 32)\n        chain_sample", "        summary_hash = f.read(32)\n        chain_sample")
+M("c06-writer-drops-nonce", "C06", ["R06.1", "R06.6"], DT, "        f.write(self.target)\n        f.write(struct.pack(b\">I\", self.nonce))\n", "        f.write(self.target)\n")
+M("c06-safe-read-le", "C06", "R06.5", SER, "    if len(r) < n:\n        raise SerializationTruncationError", "    if len(r) < n - 1:\n        raise SerializationTruncationError")
+M("c06-scrypt-partial-summary", "C06", ["R06.1", "R05.7"], CONS, "    return scrypt(summary.serialize(), current_height.to_bytes(8, byteorder='big'))",
+  "    return scrypt(summary.serialize()[:-4], current_height.to_bytes(8, byteorder='big'))")
+M("c06-evidence-guard-dropped", "C06", ["R06.3", "R05.7"], CONS,
+  "    if block.header.pow_evidence != reconstructed_evidence:\n        raise ValidateBlockError(\"POW Evidence incorrect\")\n", "")
+M("c06-unknown-sig-tag-tolerated", "C06", ["R06.4", "R07.4", "R06.6"], SIG,
+  "        raise DeserializationError(\"Non-supported signature type.\")", "        return SignableEquivalent.stream_deserialize(f)")
+M("c06-vlq-noncanonical", "C06", ["R07.6", "R06.6"], SER,
+  "    if canonical.getvalue() != b\"\".join(consumed):\n        raise DeserializationError(\"Non-canonical VLQ encoding\")\n", "")
+M("c06-extra-unhashed-field", "C06", "R06.1", DT,
+  "        self.summary_hash = summary_hash\n        self.chain_sample = chain_sample\n        self.block_hash = block_hash\n\n    def __repr__",
+  "        self.summary_hash = summary_hash\n        self.chain_sample = chain_sample\n        self.block_hash = block_hash\n        self.note = summary_hash\n\n    def __repr__")
+
+# ----------------------------------------------------------------------------------------------- C17
+M("c17-dup-self", "C17", "R17.2", MT, "            new_list.append(sha256d(chunk[0] + chunk[1]))\n        else:  # implied: len(chunk) == 1\n            new_list.append(chunk[0])\n\n    return get_merkle_root(new_list)",
+  "            new_list.append(sha256d(chunk[0] + chunk[1]))\n        else:  # implied: len(chunk) == 1\n            new_list.append(sha256d(chunk[0] + chunk[0]))\n\n    return get_merkle_root(new_list)")
+M("c17-pad-last", "C17", "R17.2", MT, "    new_list = []\n    for chunk in _chunks(list_of_hashes, 2):", "    if len(list_of_hashes) % 2:\n        list_of_hashes.append(list_of_hashes[-1])\n    new_list = []\n    for chunk in _chunks(list_of_hashes, 2):")
+M("c17-root-skips-coinbase", "C17", "R17.1", CONS, "    return get_merkle_root([transaction.hash() for transaction in transactions])", "    return get_merkle_root([transaction.hash() for transaction in transactions[1:]])")
+M("c17-root-sorted", "C17", "R17.1", CONS, "    return get_merkle_root([transaction.hash() for transaction in transactions])", "    return get_merkle_root(sorted(transaction.hash() for transaction in transactions))")
+M("c17-drop-merkle-guard", "C17", "R17.1", CONS, "    if block.header.summary.merkle_root_hash != calc_merkle_root_hash(block.transactions):\n        raise ValidateBlockError(\"Incorrect merkle_root_hash\")\n", "")
+M("c17-swap-pair-one-builder", "C17", "R17.3", MT, "            new_list.append(sha256d(chunk[0] + chunk[1]))", "            new_list.append(sha256d(chunk[1] + chunk[0]))")
+M("c17-chunks-step", "C17", "R17.3", MT, "    return (lst[i:i + chunk_size] for i in range(0, len(lst), chunk_size))", "    return (lst[i:i + chunk_size] for i in range(0, len(lst) - 1, chunk_size))")
+M("c17-tree-drops-odd", "C17", "R17.3", MT, "            new_list.append(MerkleNode(chunk[0].index, (chunk[0], chunk[1])))\n        else:  # implied: len(chunk) == 1\n            new_list.append(chunk[0])",
+  "            new_list.append(MerkleNode(chunk[0].index, (chunk[0], chunk[1])))\n        else:  # implied: len(chunk) == 1\n            pass")
+M("c17-merkle-compare-prefix", "C17", "R17.1", CONS, "    if block.header.summary.merkle_root_hash != calc_merkle_root_hash(block.transactions):",
+  "    if block.header.summary.merkle_root_hash[:4] != calc_merkle_root_hash(block.transactions)[:4]:")
